@@ -106,18 +106,27 @@ theorem cancel_stage_cancels (c : Cfg) (s : State) (id i : Nat) (h : (s.stage i)
   obtain ⟨y, _, rfl⟩ := hx
   split <;> simp_all
 
-/-- **A StartStage that arrives after the cancel is durable starts nothing** (F26 repair): on a NOT_STARTED stage it
-    commits nothing at all — in particular a StartStage overtaking the stage's CancelStage can no longer complete a
-    task-less or disabled stage SUCCEEDED / SKIPPED. -/
+/-- **A StartStage that arrives after the cancel is durable starts nothing** (F26 repair): on a NOT_STARTED stage it writes no
+    stage, task or workflow state at all — in particular a StartStage overtaking the stage's CancelStage can no longer complete
+    a task-less or disabled stage SUCCEEDED / SKIPPED.  F66 repair: while the workflow is not final it finishes the cancel for
+    the workflow itself (a cancel that only set the flag has produced no fan-out): it marks itself and queues a
+    `CancelWorkflow`, whose handler fans out CancelStage to every unfinished stage and queues the `CompleteWorkflow`; in a final
+    workflow it does nothing. -/
 theorem startStage_after_cancel_is_inert (c : Cfg) (s : State) (id i r : Nat)
-    (hc : s.canceled = true) (hn : (s.stage i).status = .notStarted) : hStartStage c s id i r = [] := by
-  simp [hStartStage, hc, hn]
+    (hc : s.canceled = true) (hn : (s.stage i).status = .notStarted) :
+    hStartStage c s id i r =
+      if s.wfStatus.isComplete then [] else [[.mark id, .push .cancelWorkflow]] := by
+  cases hw : s.wfStatus.isComplete <;> simp [hStartStage, hc, hn, hw]
 
 /-- … and a SkipStage that arrives after the cancel is durable skips nothing: a canceled workflow can no longer end
-    SUCCEEDED because its remaining stages were all SKIPPED behind the cancel. -/
+    SUCCEEDED because its remaining stages were all SKIPPED behind the cancel; on a stage that has not started it queues the
+    same `CancelWorkflow` (F66), otherwise nothing. -/
 theorem skipStage_after_cancel_is_inert (c : Cfg) (s : State) (id i : Nat) (hc : s.canceled = true) :
-    hSkipStage c s id i = [] := by
-  simp [hSkipStage, hc]
+    hSkipStage c s id i =
+      if (s.stage i).status == .notStarted && !s.wfStatus.isComplete
+      then [[.mark id, .push .cancelWorkflow]] else [] := by
+  cases hw : s.wfStatus.isComplete <;> cases hs : ((s.stage i).status == Status.notStarted) <;>
+    simp_all [hSkipStage, bne]
 
 /-- **No stage is claimed (NOT_STARTED → RUNNING) once the cancel is durable**, whatever message is handled. -/
 theorem no_claim_after_cancel (c : Cfg) (s : State) (row : Row) (i : Nat) (e : Eff)
@@ -125,8 +134,9 @@ theorem no_claim_after_cancel (c : Cfg) (s : State) (row : Row) (i : Nat) (e : E
   intro hcl
   obtain ⟨r, hm, _⟩ := only_startStage_claims c s row i e he hcl
   obtain ⟨new, rfl, hns, _⟩ := hcl
-  have : hStartStage c s row.id i r = [] := startStage_after_cancel_is_inert c s row.id i r hc hns
-  simp [handle, hm, this] at he
+  have := startStage_after_cancel_is_inert c s row.id i r hc hns
+  simp only [handle, hm, this] at he
+  split at he <;> simp at he
 
 /-- **Once a cancel has been accepted, a drained queue means the workflow has reached a final status** — for EVERY
     workflow (any join types, OR-splits, jumps, suspends, any task results) and every schedule made of acknowledged
@@ -177,14 +187,14 @@ example : Acked [Op.deliver 1, Op.cancel, Op.deliver 3, Op.deliver 2, Op.deliver
 -- the flag commit and the fan-out commit, a recovery sweep runs, a StartStage is delivered without ack, and the queue drains
 def crashOps : List Op :=
   [Op.deliver 1, Op.cancel, Op.crash 3 1, Op.sweep, Op.deliverNoAck 2, Op.deliver 3, Op.deliver 2, Op.deliver 4, Op.deliver 5,
-   Op.deliver 6, Op.deliver 7, Op.deliver 8]
+   Op.deliver 6, Op.deliver 7, Op.deliver 8, Op.deliver 9, Op.deliver 10]
 
 example : NoNested crashOps ∧ (run demoCfg crashOps).canceled = true ∧ (run demoCfg crashOps).queue = [] ∧
     (run demoCfg (crashOps.take 4)).canceled = true ∧ (run demoCfg (crashOps.take 4)).wfStatus = .running := by
   refine ⟨?_, by decide, by decide, by decide, by decide⟩
   intro op hop id inner
   simp only [crashOps, List.mem_cons, List.mem_nil_iff, or_false] at hop
-  rcases hop with rfl | rfl | rfl | rfl | rfl | rfl | rfl | rfl | rfl | rfl | rfl | rfl <;> simp
+  rcases hop with rfl | rfl | rfl | rfl | rfl | rfl | rfl | rfl | rfl | rfl | rfl | rfl | rfl | rfl <;> simp
 
 -- ... and of `canceled_drained_is_final_always` by a run in which the cancel is accepted by a second worker WHILE the task
 -- executes (the task's result commit lands after the fan-out), then the queue drains
